@@ -1,6 +1,6 @@
 (* C04 — approximate search is sound: only live, matching, correctly ranked results. *)
 From Coq Require Import ZArith Floats List Sorting.Sorted.
-From Syz Require Import Quant Dist Search Lsh FloatOrder ApproxProofs HeapPerm ApproxNonEmpty.
+From Syz Require Import Quant Dist Search Lsh FloatOrder ApproxProofs HeapPerm ApproxNonEmpty ApproxSingleLeaf.
 Open Scope Z_scope.
 
 (* For EVERY forest (it need not even satisfy the index invariant), every query, K, radius, filter
@@ -38,3 +38,17 @@ Print Assumptions C04_nonempty.
 Theorem C04_queue_is_a_bag : forall (h : list qitem) x h', hpop fst (0%float, Nil) h = Some (x, h') -> Permutation.Permutation h (x :: h').
 Proof. intros h x h'. apply hpop_perm. Qed.
 Print Assumptions C04_queue_is_a_bag.
+
+(* On a collection small enough for a single index leaf per tree (every tree of the forest is one leaf; all leaves
+   hold the same duplicate-free live ids — the state C05 maintains while the collection has at most 100 documents)
+   the default-precision K-nearest search IS the exact search: its result is the bounded heap `knn` of C03 folded
+   over the accepted candidates in the order of the leaf the queue hands out first, and C03_knn says what that is
+   for every order (the min(K, m) nearest, sorted, ties free). *)
+Theorem C04_single_leaf : forall cosine q K R docs forest, (0 < K)%nat -> PrimFloat.ltb 0 R = false ->
+  forest <> nil ->
+  (forall t, In t forest -> exists ids, t = Leaf ids /\ NoDup ids /\ Forall (live docs) ids) ->
+  (forall t t' ids ids', In t forest -> In t' forest -> t = Leaf ids -> t' = Leaf ids' -> incl ids' ids) ->
+  exists ids, In (Leaf ids) forest /\
+    fst (fst (search_approx cosine q K R docs forest)) = knn PrimFloat.ltb K (cands_in_order cosine q docs ids).
+Proof. exact approx_single_leaf. Qed.
+Print Assumptions C04_single_leaf.
